@@ -49,9 +49,9 @@ DecId(svc, p) == CASE svc = 39 -> p[2] [] svc = 49 -> p[3] * 256 + p[4] [] OTHER
      [k |-> "pos", n]       result record "Positive replies: n"
      [k |-> "end", s]       result record "Scan in session s is complete"                    *)
 
-Range(C)   == {i \in C.start..C.end : i \in Universe(C.svc)}
-Skipped(C, s) == IF ~C.has THEN {} ELSE IF s \in C.skipAll THEN Range(C) ELSE {i \in Range(C) : <<s, i>> \in C.skip}
-Wanted(C, s)  == SubFns(C.svc) \X (Range(C) \ Skipped(C, s))
+IdRange(C)   == {i \in C.start..C.end : i \in Universe(C.svc)}
+Skipped(C, s) == IF ~C.has THEN {} ELSE IF s \in C.skipAll THEN IdRange(C) ELSE {i \in IdRange(C) : <<s, i>> \in C.skip}
+Wanted(C, s)  == SubFns(C.svc) \X (IdRange(C) \ Skipped(C, s))
 TruthOf(C, s) == IF C.has THEN s ELSE C.start_session
 
 IsSessRead(p) == p = <<34, 241, 134>>
